@@ -239,5 +239,8 @@ def decompose_cphase_into_two_fsim(
         # Local Z rotations to convert exp(-i Z⊗Z δ/4) into desired CPhase.
         ops.rz(-delta / 2).on(q0),
         ops.rz(-delta / 2).on(q1),
-        ops.global_phase_operation(np.exp(-1j * delta / 4)),
+        # The global shift of the given gate contributes the phase exp(iπ·shift·exponent).
+        ops.global_phase_operation(
+            np.exp(-1j * delta / 4 + 1j * np.pi * cphase_gate.global_shift * cphase_gate.exponent)
+        ),
     )
